@@ -587,10 +587,16 @@ func genC08(g GenCtx) interface{} {
 		case "write":
 			if !static || !released {
 				// static runs keep the server unchanged once it could matter
-				sc.Acts = append(sc.Acts, writeAct(rng, nkeys))
+				for w := 1 + rng.Intn(3); w > 0; w-- {
+					sc.Acts = append(sc.Acts, writeAct(rng, nkeys))
+				}
 			}
 		case "mknode":
 			mixedNode(b, rng, 3)
+			if !static && released {
+				// a node created under traffic: parent events race with its readiness
+				sc.Acts = append(sc.Acts, writeAct(rng, nkeys))
+			}
 		case "settle":
 			sc.Acts = append(sc.Acts, TAct{Op: "settle"})
 		}
